@@ -263,7 +263,17 @@ class SymInterp:
         if isinstance(e, ast.Constant):
             return e.value
         if isinstance(e, ast.JoinedStr):
-            return "<f-string>"
+            out = []
+            for v in e.values:
+                if isinstance(v, ast.Constant):
+                    out.append(str(v.value))
+                else:
+                    try:
+                        x = self.ev(v.value, env)
+                        out.append(x if isinstance(x, str) else (str(x) if isinstance(x, (int, float)) else repr(x)))
+                    except AnalysisError:
+                        out.append("<?>")      # text only used in log messages
+            return "".join(out)
         if isinstance(e, ast.Name):
             if e.id in env:
                 return env[e.id]
